@@ -111,7 +111,7 @@ def jobs(tier, seed):
         J.append(job(p, 0, True))                      # alias only: no record of the type
         J.append(job(p, 1, False, mal=1, cap=1 if addr else 0))
         J.append(job(p, 1, False, mal=2, cap=1 if addr else 0))
-        if tier != "quick" or p in ("a", "mx", "soa"):
+        if tier == "quick" and p in ("a", "mx", "soa"):
             J.append(job(p, 0, False, foreign=True))
         if tier != "quick":
             J.append(job(p, 2, False, cap=2 if addr else 0))
@@ -119,8 +119,7 @@ def jobs(tier, seed):
             J.append(job(p, 1, False, mal=3, cap=1 if addr else 0))
             J.append(job(p, 2, True, mal=1, cap=2 if addr else 0))
             J.append(job(p, 1, False, foreign=True, cap=1 if addr else 0))
-            if p not in ("a", "mx", "soa"):
-                J.append(job(p, 0, False, foreign=True))
+            J.append(job(p, 0, False, foreign=True))
     # capacity: 2 addresses, caller offers 0..3 elements on an exact-size array
     for p in ("a", "aaaa"):
         for cap in (0, 1, 2, 3):
@@ -129,6 +128,8 @@ def jobs(tier, seed):
             for cap in (0, 1, 2):
                 J.append(job(p, 2, True, cap=cap, extra=["-DTTL31"], suffix="_capacity"))
     J += misc_jobs(tier)
+    for j in J:
+        j.setdefault("mem_gb", 6)
     return J
 
 
